@@ -509,6 +509,54 @@ def r04_7(rep: Report, idx: Index) -> None:
         raise AnalysisError('no done() call on a bit-level FieldWriter found')
 
 
+# ITU-T H.264 7.3.2.1.1: the sequence parameter set carries chroma_format_idc / bit depths for these
+# profile_idc values; ISO/IEC 14496-15 5.3.3.1.2 lets the avcC record carry the matching extension fields
+# for them (the text of 14496-15 lists 100, 110, 122 and "144" - encoders write 244 and the rest)
+H264_HIGH_PROFILE_FAMILY = frozenset({100, 110, 122, 244, 44, 83, 86, 118, 128, 138, 139, 134, 135})
+
+
+def r04_8(rep: Report) -> None:
+    """R04.8  the avcC parser reads the extension block (chroma_format, bit depths, SPS extensions) exactly for
+    the profiles whose records carry one; a profile missing from the set makes the parser stop four or more
+    bytes early, and the encoder - which consults the same set - writes the box short: the round trip loses
+    bytes although reader and writer agree with each other (R04.1 cannot see it)."""
+    tree = rep.repo.tree(MP4)
+    cls = need(find_class(tree, 'AVCConfigurationBox'), 'AVCConfigurationBox')
+    fn = need(find_func(cls, 'is_ext_profile', raw=True), 'AVCConfigurationBox.is_ext_profile')
+    construct = f'{MP4}::AVCConfigurationBox.is_ext_profile'
+    found: set[int] | None = None
+    consts = {}
+    for st in cls.body + tree.body:
+        if isinstance(st, (ast.Assign, ast.AnnAssign)) and getattr(st, 'value', None) is not None:
+            tg = st.targets[0] if isinstance(st, ast.Assign) else st.target
+            if isinstance(tg, ast.Name):
+                consts[tg.id] = st.value
+    for n in ast.walk(fn):
+        if isinstance(n, ast.Compare) and len(n.ops) == 1 and isinstance(n.ops[0], ast.In):
+            coll = n.comparators[0]
+            if isinstance(coll, ast.Attribute) and coll.attr in consts:
+                coll = consts[coll.attr]
+            elif isinstance(coll, ast.Name) and coll.id in consts:
+                coll = consts[coll.id]
+            if isinstance(coll, ast.Call) and call_name(coll) in ('frozenset', 'set', 'tuple', 'list') and coll.args:
+                coll = coll.args[0]
+            try:
+                found = {int(x) for x in ast.literal_eval(coll)}
+            except Exception:
+                found = None
+    if found is None:
+        rep.fail('R04.8', construct, 'profiles with an extension block',
+                 'the set of profile_idc values that carry the avcC extension block was not found as a literal collection: '
+                 'unrecognised', fn)
+    elif H264_HIGH_PROFILE_FAMILY <= found:
+        rep.ok('R04.8', construct, 'profiles with an extension block', f'{sorted(found)}')
+    else:
+        rep.fail('R04.8', construct, 'profiles with an extension block',
+                 f'profile_idc {sorted(H264_HIGH_PROFILE_FAMILY - found)} carry the extension block (H.264 7.3.2.1.1) but are '
+                 'not in the set the avcC parser and encoder consult: such a record is parsed without its last bytes and '
+                 're-encoded short', fn)
+
+
 def analyse(rep: Report) -> None:
     rep.explanation = (
         'For every codec class of dashlive/mpeg/mp4.py the parse-side and encode-side bodies are '
@@ -524,6 +572,7 @@ def analyse(rep: Report) -> None:
     rep.rule('R04.4', 'box header reader/writer agreement', floor=3)
     rep.rule('R04.6', 'FieldReader.read() result is never used as a value', floor=1)
     rep.rule('R04.7', 'a bit-level FieldWriter is flushed once, by the function that made it', floor=2)
+    rep.rule('R04.8', 'the avcC extension block is read for every H.264 profile that carries one', floor=1)
     idx = Index(rep.repo, 'dashlive')
     layout_rule(rep, idx, 'R04.1', [MP4], 44)
     r04_2(rep, idx)
@@ -531,6 +580,7 @@ def analyse(rep: Report) -> None:
     r04_4(rep)
     r04_6(rep)
     r04_7(rep, idx)
+    r04_8(rep)
     # registry: every @fourcc class has a pair or inherits one
     mod = idx.by_rel[MP4]
     reg = [c for c in mod.classes.values()
